@@ -114,9 +114,14 @@ class TooManyTimeouts(Exception):
 TIMEOUTS = []
 
 
+HANGING = set()
+
+
 def note_timeout(desc):
+    """a query kind that did not return is not run again (each costs a full time limit)"""
     TIMEOUTS.append(desc)
-    if len(TIMEOUTS) >= 3:
+    HANGING.add(desc["q"])
+    if len(TIMEOUTS) >= 12:
         raise TooManyTimeouts("queries do not return: %r" % (TIMEOUTS[:3],))
 
 
@@ -124,6 +129,8 @@ def invoke(o, desc, args=None, kwargs=None, limit=20):
     """run one query; returns (canonical result, live result or None)"""
     if args is None:
         args, kwargs = build_args(desc)
+    if desc["q"] in HANGING:
+        return ("raise", "Timeout", ""), None      # skipped: this kind of query did not return before
     try:
         if threading.current_thread() is threading.main_thread():
             with common.time_limit(limit):
@@ -662,11 +669,14 @@ def run(ctx):
     tles = usable
     fresh = Fresh()
     del TIMEOUTS[:]
+    HANGING.clear()
     try:
         if facts is not None:
             dynamic_crosscheck(ctx, facts, tles[:ctx.n(2, 4)])
         history_oracle(ctx, tles, fresh, ctx.n(60, 600))
         scheduler_oracle(ctx, tles, fresh)
     except TooManyTimeouts:
+        pass
+    if TIMEOUTS:
         ctx.corr_fail("M_Purity: every query is a finite program (terminates) vs Orbital queries that do not return",
                       {"tle": list(tles[0]), "calls_without_result_after_20s": TIMEOUTS[:3]})
